@@ -330,3 +330,346 @@ Proof.
   - rewrite S2. unfold zl. cbn [bind fst snd is_nil gnil negb to_msg_err unerr rmap].
     rewrite wraps64_small by lia. do 3 f_equal. lia.
 Qed.
+
+(* ---------- length functions ---------- *)
+Lemma g_thrift_BoolLength_eq b : g_thrift_BoolLength = Ok (Z.of_N (l_item (IBool b))).
+Proof. reflexivity. Qed.
+Lemma g_thrift_ByteLength_eq v : g_thrift_ByteLength = Ok (Z.of_N (l_item (IByte v))).
+Proof. reflexivity. Qed.
+Lemma g_thrift_I16Length_eq v : g_thrift_I16Length = Ok (Z.of_N (l_item (II16 v))).
+Proof. reflexivity. Qed.
+Lemma g_thrift_I32Length_eq v : g_thrift_I32Length = Ok (Z.of_N (l_item (II32 v))).
+Proof. reflexivity. Qed.
+Lemma g_thrift_I64Length_eq v : g_thrift_I64Length = Ok (Z.of_N (l_item (II64 v))).
+Proof. reflexivity. Qed.
+Lemma g_thrift_DoubleLength_eq v : g_thrift_DoubleLength = Ok (Z.of_N (l_item (IDouble v))).
+Proof. reflexivity. Qed.
+Lemma g_thrift_FieldBeginLength_eq t id : g_thrift_FieldBeginLength = Ok (Z.of_N (l_item (IFieldBegin t id))).
+Proof. reflexivity. Qed.
+Lemma g_thrift_FieldStopLength_eq : g_thrift_FieldStopLength = Ok (Z.of_N (l_item IFieldStop)).
+Proof. reflexivity. Qed.
+Lemma g_thrift_MapBeginLength_eq kt vt sz : g_thrift_MapBeginLength = Ok (Z.of_N (l_item (IMapBegin kt vt sz))).
+Proof. reflexivity. Qed.
+Lemma g_thrift_ListBeginLength_eq et sz : g_thrift_ListBeginLength = Ok (Z.of_N (l_item (IListBegin et sz))).
+Proof. reflexivity. Qed.
+Lemma g_thrift_SetBeginLength_eq et sz : g_thrift_SetBeginLength = Ok (Z.of_N (l_item (ISetBegin et sz))).
+Proof. reflexivity. Qed.
+
+(* 4 + len(v) is computed in int: equal to the unbounded sum exactly when it fits, which every
+   Go string / slice satisfies with room to spare (len < 2^63 - 4) *)
+Lemma len4_fits {A} (v : list A) : (glen v + 4 < 2 ^ 63)%Z -> wraps 64 (4 + glen v) = Z.of_N (4 + len v).
+Proof. unfold glen. intros H. rewrite wraps64_small by lia. lia. Qed.
+
+Lemma g_thrift_StringLength_eq v :
+  (glen v + 4 < 2 ^ 63)%Z -> g_thrift_StringLength v = Ok (Z.of_N (l_item (IString v))).
+Proof. intros H. unfold g_thrift_StringLength, l_item. now rewrite len4_fits. Qed.
+Lemma g_thrift_BinaryLength_eq v :
+  (glen v + 4 < 2 ^ 63)%Z -> g_thrift_BinaryLength v = Ok (Z.of_N (l_item (IBinary v))).
+Proof. intros H. unfold g_thrift_BinaryLength, l_item. now rewrite len4_fits. Qed.
+Lemma g_thrift_StringLengthNocopy_eq v :
+  (glen v + 4 < 2 ^ 63)%Z -> g_thrift_StringLengthNocopy v = Ok (Z.of_N (l_item (IString v))).
+Proof. intros H. unfold g_thrift_StringLengthNocopy, l_item. now rewrite len4_fits. Qed.
+Lemma g_thrift_BinaryLengthNocopy_eq v :
+  (glen v + 4 < 2 ^ 63)%Z -> g_thrift_BinaryLengthNocopy v = Ok (Z.of_N (l_item (IBinary v))).
+Proof. intros H. unfold g_thrift_BinaryLengthNocopy, l_item. now rewrite len4_fits. Qed.
+Lemma g_thrift_MessageBeginLength_eq m :
+  (glen m + 12 < 2 ^ 63)%Z -> g_thrift_MessageBeginLength m = Ok (Z.of_N (l_message_begin m)).
+Proof.
+  intros H. unfold g_thrift_MessageBeginLength, l_message_begin. rewrite len4_fits by lia.
+  unfold glen in H. rewrite (wraps64_small (4 + Z.of_N (4 + len m))) by lia.
+  rewrite wraps64_small by lia. f_equal. lia.
+Qed.
+
+(* ---------- appending writers ---------- *)
+Lemma gbyte_wrapu8 z : gbyte (wrapu 8 z) = u8 z.
+Proof. exact (wrapu_to_unsigned 8 z). Qed.
+Lemma to_N_wrapu16 z : Z.to_N (wrapu 16 z) = u16 z.
+Proof. exact (wrapu_to_unsigned 16 z). Qed.
+Lemma to_N_wrapu32 z : Z.to_N (wrapu 32 z) = u32 z.
+Proof. exact (wrapu_to_unsigned 32 z). Qed.
+Lemma to_N_wrapu64 z : Z.to_N (wrapu 64 z) = u64 z.
+Proof. exact (wrapu_to_unsigned 64 z). Qed.
+
+Lemma wrapu_nonneg w z : (0 <= w)%Z -> (0 <= wrapu w z)%Z.
+Proof. intros H. apply wrapu_range. exact H. Qed.
+
+(* byte(x >> k) for a non-negative x *)
+Lemma gbyte_shr x k : (0 <= x)%Z -> (0 <= k)%Z -> gbyte (wrapu 8 (gshr x k)) = shrb (Z.to_N x) (Z.to_N k).
+Proof.
+  intros Hx Hk. unfold gbyte, wrapu, gshr, shrb.
+  assert (0 < 2 ^ k)%Z by (apply Z.pow_pos_nonneg; lia).
+  rewrite Z2N.inj_mod by (try apply Z.div_pos; lia).
+  rewrite Z2N.inj_div by lia. rewrite Z2N.inj_pow by lia. reflexivity.
+Qed.
+Lemma gbyte_low x : (0 <= x)%Z -> gbyte (wrapu 8 x) = shrb (Z.to_N x) 0.
+Proof.
+  intros Hx. unfold gbyte, wrapu, shrb. rewrite Z2N.inj_mod by lia.
+  change (2 ^ 0) with 1. rewrite N.div_1_r. reflexivity.
+Qed.
+
+Lemma g_thrift_appendUint32_eq buf v : (0 <= v)%Z -> g_thrift_appendUint32 buf v = Ok (app_u32 buf (Z.to_N v)).
+Proof.
+  intros H. unfold g_thrift_appendUint32, app_u32.
+  rewrite !gbyte_shr by lia. rewrite gbyte_low by lia. reflexivity.
+Qed.
+Lemma g_thrift_appendUint64_eq buf v : (0 <= v)%Z -> g_thrift_appendUint64 buf v = Ok (app_u64 buf (Z.to_N v)).
+Proof.
+  intros H. unfold g_thrift_appendUint64, app_u64.
+  rewrite !gbyte_shr by lia. rewrite gbyte_low by lia. reflexivity.
+Qed.
+
+Lemma g_thrift_AppendBool_eq buf v : g_thrift_AppendBool buf v = Ok (a_bool buf v).
+Proof. destruct v; reflexivity. Qed.
+Lemma g_thrift_AppendByte_eq buf v : g_thrift_AppendByte buf v = Ok (a_byte buf v).
+Proof. unfold g_thrift_AppendByte, a_byte. now rewrite gbyte_wrapu8. Qed.
+Lemma g_thrift_AppendI16_eq buf v : g_thrift_AppendI16 buf v = Ok (a_i16 buf v).
+Proof.
+  unfold g_thrift_AppendI16, a_i16. rewrite gbyte_shr by (try apply wrapu_nonneg; lia).
+  rewrite to_N_wrapu16, gbyte_wrapu8. reflexivity.
+Qed.
+Lemma g_thrift_AppendI32_eq buf v : g_thrift_AppendI32 buf v = Ok (a_i32 buf v).
+Proof.
+  unfold g_thrift_AppendI32, a_i32. rewrite g_thrift_appendUint32_eq by (apply wrapu_nonneg; lia).
+  rewrite to_N_wrapu32. reflexivity.
+Qed.
+Lemma g_thrift_AppendI64_eq buf v : g_thrift_AppendI64 buf v = Ok (a_i64 buf v).
+Proof.
+  unfold g_thrift_AppendI64, a_i64. rewrite g_thrift_appendUint64_eq by (apply wrapu_nonneg; lia).
+  rewrite to_N_wrapu64. reflexivity.
+Qed.
+(* float64 as its bit pattern: a value of uint64 *)
+Lemma g_thrift_AppendDouble_eq buf bits :
+  bits < two64 -> g_thrift_AppendDouble buf (Z.of_N bits) = Ok (a_double buf bits).
+Proof.
+  intros H. unfold g_thrift_AppendDouble, a_double. rewrite g_thrift_appendUint64_eq by lia.
+  rewrite N2Z.id, N.mod_small by exact H. reflexivity.
+Qed.
+
+(* a_i32 only depends on the low 32 bits of its argument *)
+Lemma u32_wraps32 z : u32 (wraps 32 z) = u32 z.
+Proof.
+  unfold u32, to_unsigned, wraps. cbv zeta. f_equal.
+  change (Z.of_N (2 ^ 32)) with (2 ^ 32)%Z.
+  destruct (z mod 2 ^ 32 <? 2 ^ (32 - 1))%Z.
+  - apply Z.mod_mod. lia.
+  - rewrite <- (Z.mod_add _ 1) by lia. replace (z mod 2 ^ 32 - 2 ^ 32 + 1 * 2 ^ 32)%Z with (z mod 2 ^ 32)%Z by lia.
+    apply Z.mod_mod. lia.
+Qed.
+Lemma a_i32_low buf x y : u32 x = u32 y -> a_i32 buf x = a_i32 buf y.
+Proof. unfold a_i32. now intros ->. Qed.
+Lemma u32_glen {A} (v : list A) : u32 (glen v) = len v mod two32.
+Proof.
+  unfold u32, to_unsigned, glen. change (Z.of_N (2 ^ 32)) with (Z.of_N two32).
+  rewrite <- N2Z.inj_mod. apply N2Z.id.
+Qed.
+
+Lemma g_append_binary buf (v : bytes) : a_i32 buf (wraps 32 (glen v)) = a_i32 buf (i32 (len v mod two32)).
+Proof.
+  apply a_i32_low. rewrite u32_wraps32, u32_glen, u32_i32; [reflexivity|].
+  apply N.mod_lt. discriminate.
+Qed.
+Lemma g_thrift_AppendBinary_eq buf v : g_thrift_AppendBinary buf v = Ok (a_binary buf v).
+Proof.
+  unfold g_thrift_AppendBinary, a_binary. rewrite g_thrift_AppendI32_eq. cbn [bind].
+  now rewrite g_append_binary.
+Qed.
+Lemma g_thrift_AppendString_eq buf v : g_thrift_AppendString buf v = Ok (a_binary buf v).
+Proof.
+  unfold g_thrift_AppendString, a_binary. rewrite g_thrift_AppendI32_eq. cbn [bind].
+  now rewrite g_append_binary.
+Qed.
+
+Lemma g_thrift_AppendFieldBegin_eq buf t id : g_thrift_AppendFieldBegin buf t id = Ok (a_field_begin buf t id).
+Proof.
+  unfold g_thrift_AppendFieldBegin, a_field_begin. rewrite !gbyte_wrapu8. do 4 f_equal.
+  unfold gshr. change (2 ^ 8)%Z with 256%Z. rewrite u8_of_u16. f_equal.
+  unfold u16, to_unsigned, wrapu. change (Z.of_N (2 ^ 16)) with (2 ^ 16)%Z. f_equal.
+  apply Z.mod_mod. lia.
+Qed.
+Lemma g_thrift_AppendFieldStop_eq buf : g_thrift_AppendFieldStop buf = Ok (a_field_stop buf).
+Proof. reflexivity. Qed.
+
+Lemma u32_i32_u32 z : u32 (i32 (u32 z)) = u32 z.
+Proof. apply u32_i32. apply u32_lt. Qed.
+
+Lemma g_thrift_AppendMapBegin_eq buf kt vt size :
+  g_thrift_AppendMapBegin buf kt vt size = Ok (a_map_begin buf kt vt size).
+Proof.
+  unfold g_thrift_AppendMapBegin, a_map_begin. rewrite g_thrift_AppendI32_eq. cbn [bind].
+  rewrite !gbyte_wrapu8. f_equal. apply a_i32_low. now rewrite u32_wraps32, u32_i32_u32.
+Qed.
+Lemma g_thrift_AppendListBegin_eq buf et size :
+  g_thrift_AppendListBegin buf et size = Ok (a_list_begin buf et size).
+Proof.
+  unfold g_thrift_AppendListBegin, a_list_begin. rewrite g_thrift_AppendI32_eq. cbn [bind].
+  rewrite !gbyte_wrapu8. f_equal. apply a_i32_low. now rewrite u32_wraps32, u32_i32_u32.
+Qed.
+Lemma g_thrift_AppendSetBegin_eq buf et size :
+  g_thrift_AppendSetBegin buf et size = Ok (a_list_begin buf et size).
+Proof.
+  unfold g_thrift_AppendSetBegin, a_list_begin. rewrite g_thrift_AppendI32_eq. cbn [bind].
+  rewrite !gbyte_wrapu8. f_equal. apply a_i32_low. now rewrite u32_wraps32, u32_i32_u32.
+Qed.
+
+(* uint32(msgVersion1) | uint32(typeID & msgTypeMask): the hand model writes the sum *)
+Lemma lor_version x : (0 <= x < 65536)%Z -> Z.lor 2147549184 x = (2147549184 + x)%Z.
+Proof.
+  intros H. assert (Z.land 2147549184 x = 0%Z) as L.
+  { apply Z.bits_inj'. intros n Hn. rewrite Z.land_spec, Z.bits_0.
+    destruct (Z.ltb_spec n 16).
+    - change 2147549184%Z with (Z.shiftl 32769 16). rewrite Z.shiftl_spec_low by lia. reflexivity.
+    - replace x with (x mod 2 ^ 16)%Z by (apply Z.mod_small; lia).
+      rewrite Z.mod_pow2_bits_high by lia. apply andb_false_r. }
+  rewrite <- Z.lxor_lor by exact L. symmetry. apply Z.add_nocarry_lxor. exact L.
+Qed.
+Lemma land_type_mask ty : (0 <= Z.land ty 65535 < 65536)%Z.
+Proof. change 65535%Z with (Z.ones 16). rewrite Z.land_ones by lia. apply Z.mod_pos_bound. lia. Qed.
+
+Lemma g_first_word ty :
+  Z.to_N (Z.lor 2147549184 (wrapu 32 (Z.land ty 65535))) = msg_first_word ty.
+Proof.
+  pose proof (land_type_mask ty) as R. rewrite wrapu_id by (unfold in_u; lia).
+  rewrite lor_version by exact R. unfold msg_first_word.
+  change thrift_msgVersion1 with 2147549184%Z. change thrift_msgTypeMask with 65535%Z. lia.
+Qed.
+Lemma g_first_word_nonneg ty : (0 <= Z.lor 2147549184 (wrapu 32 (Z.land ty 65535)))%Z.
+Proof.
+  pose proof (land_type_mask ty) as R. rewrite wrapu_id by (unfold in_u; lia).
+  rewrite lor_version by exact R. lia.
+Qed.
+
+Lemma g_thrift_AppendMessageBegin_eq buf name ty seq :
+  g_thrift_AppendMessageBegin buf name ty seq = Ok (a_message_begin buf name ty seq).
+Proof.
+  unfold g_thrift_AppendMessageBegin, a_message_begin.
+  rewrite g_thrift_appendUint32_eq by apply g_first_word_nonneg. cbn [bind].
+  rewrite g_thrift_AppendString_eq. cbn [bind]. rewrite g_thrift_AppendI32_eq. cbn [bind].
+  now rewrite g_first_word.
+Qed.
+
+(* ---------- in-place writers: (final buffer, n) ---------- *)
+Lemma gput_put buf off bs : (0 <= off)%Z -> gput buf off bs = put buf (Z.to_N off) bs.
+Proof. intros H. unfold gput, put. destruct (Z.ltb_spec off 0); [lia|reflexivity]. Qed.
+Lemma gcopy_copy_to buf off v : (0 <= off)%Z -> gcopy buf off v = rmap zl (copy_to buf (Z.to_N off) v).
+Proof.
+  intros H. unfold gcopy, copy_to. destruct (Z.ltb_spec off 0); [lia|]. cbv zeta.
+  destruct (N.leb_spec (Z.to_N off) (len buf)); reflexivity.
+Qed.
+
+Lemma gbe2 v : gbe 2 (wrapu 16 v) = be 2 (u16 v). Proof. unfold gbe. now rewrite to_N_wrapu16. Qed.
+Lemma gbe4 v : gbe 4 (wrapu 32 v) = be 4 (u32 v). Proof. unfold gbe. now rewrite to_N_wrapu32. Qed.
+Lemma gbe8 v : gbe 8 (wrapu 64 v) = be 8 (u64 v). Proof. unfold gbe. now rewrite to_N_wrapu64. Qed.
+
+Ltac put_case_as x :=
+  match goal with |- context [put ?b ?o ?bs] => destruct (put b o bs) as [x| | |]; try reflexivity end.
+Ltac put_case := match goal with |- context [put ?b ?o ?bs] => destruct (put b o bs); try reflexivity end.
+
+Lemma g_thrift_WriteBool_eq buf v : g_thrift_WriteBool buf v = rmap zl (w_bool buf v).
+Proof.
+  unfold g_thrift_WriteBool, w_bool, gstore. destruct v; rewrite gput_put by lia;
+    change (Z.to_N 0) with 0; change (gbyte 1) with 1; change (gbyte 0) with 0; put_case.
+Qed.
+Lemma g_thrift_WriteByte_eq buf v : g_thrift_WriteByte buf v = rmap zl (w_byte buf v).
+Proof.
+  unfold g_thrift_WriteByte, w_byte, gstore. rewrite gput_put by lia. rewrite gbyte_wrapu8.
+  change (Z.to_N 0) with 0. put_case.
+Qed.
+Lemma g_thrift_WriteI16_eq buf v : g_thrift_WriteI16 buf v = rmap zl (w_i16 buf v).
+Proof.
+  unfold g_thrift_WriteI16, w_i16. rewrite gput_put by lia. rewrite gbe2.
+  change (Z.to_N 0) with 0. put_case.
+Qed.
+Lemma g_thrift_WriteI32_eq buf v : g_thrift_WriteI32 buf v = rmap zl (w_i32 buf v).
+Proof.
+  unfold g_thrift_WriteI32, w_i32. rewrite gput_put by lia. rewrite gbe4.
+  change (Z.to_N 0) with 0. put_case.
+Qed.
+Lemma g_thrift_WriteI64_eq buf v : g_thrift_WriteI64 buf v = rmap zl (w_i64 buf v).
+Proof.
+  unfold g_thrift_WriteI64, w_i64. rewrite gput_put by lia. rewrite gbe8.
+  change (Z.to_N 0) with 0. put_case.
+Qed.
+Lemma g_thrift_WriteDouble_eq buf bits :
+  bits < two64 -> g_thrift_WriteDouble buf (Z.of_N bits) = rmap zl (w_double buf bits).
+Proof.
+  intros H. unfold g_thrift_WriteDouble, w_double. rewrite gput_put by lia. unfold gbe.
+  rewrite N2Z.id, N.mod_small by exact H. change (Z.to_N 0) with 0. put_case.
+Qed.
+Lemma g_thrift_WriteFieldBegin_eq buf t id :
+  g_thrift_WriteFieldBegin buf t id = rmap zl (w_field_begin buf t id).
+Proof.
+  unfold g_thrift_WriteFieldBegin, w_field_begin, gstore. rewrite gput_put by lia. rewrite gbyte_wrapu8.
+  change (Z.to_N 0) with 0. put_case. cbn [bind]. rewrite gput_put by lia. rewrite gbe2.
+  change (Z.to_N 1) with 1. put_case.
+Qed.
+Lemma g_thrift_WriteFieldStop_eq buf : g_thrift_WriteFieldStop buf = rmap zl (w_field_stop buf).
+Proof.
+  unfold g_thrift_WriteFieldStop, w_field_stop, gstore. rewrite gput_put by lia.
+  change (Z.to_N 0) with 0. change (gbyte 0) with (u8 thrift_STOP). put_case.
+Qed.
+Lemma g_thrift_WriteMapBegin_eq buf kt vt size :
+  g_thrift_WriteMapBegin buf kt vt size = rmap zl (w_map_begin buf kt vt size).
+Proof.
+  unfold g_thrift_WriteMapBegin, w_map_begin, gstore. rewrite gput_put by lia. rewrite gbyte_wrapu8.
+  change (Z.to_N 0) with 0. put_case. cbn [bind]. rewrite gput_put by lia. rewrite gbyte_wrapu8.
+  change (Z.to_N 1) with 1. put_case. cbn [bind]. rewrite gput_put by lia. rewrite gbe4.
+  change (Z.to_N 2) with 2. put_case.
+Qed.
+Lemma g_thrift_WriteListBegin_eq buf et size :
+  g_thrift_WriteListBegin buf et size = rmap zl (w_list_begin buf et size).
+Proof.
+  unfold g_thrift_WriteListBegin, w_list_begin, gstore. rewrite gput_put by lia. rewrite gbyte_wrapu8.
+  change (Z.to_N 0) with 0. put_case. cbn [bind]. rewrite gput_put by lia. rewrite gbe4.
+  change (Z.to_N 1) with 1. put_case.
+Qed.
+Lemma g_thrift_WriteSetBegin_eq buf et size :
+  g_thrift_WriteSetBegin buf et size = rmap zl (w_list_begin buf et size).
+Proof.
+  unfold g_thrift_WriteSetBegin, w_list_begin, gstore. rewrite gput_put by lia. rewrite gbyte_wrapu8.
+  change (Z.to_N 0) with 0. put_case. cbn [bind]. rewrite gput_put by lia. rewrite gbe4.
+  change (Z.to_N 1) with 1. put_case.
+Qed.
+
+Lemma copy_to_le b off v b' m : copy_to b off v = Ok (b', m) -> m <= len v.
+Proof.
+  unfold copy_to. destruct (N.leb_spec off (len b)) as [Hle|Hle]; [|discriminate].
+  intros Hx. inversion Hx. lia.
+Qed.
+
+Lemma gbe4_glen (v : bytes) : gbe 4 (wrapu 32 (glen v)) = be 4 (len v mod two32).
+Proof. now rewrite gbe4, u32_glen. Qed.
+
+(* 4 + copy(...) is computed in int; it cannot wrap because copy returns at most len(v) *)
+Lemma g_write_binary buf v (g : res (bytes * Z)) :
+  (glen v + 4 < 2 ^ 63)%Z ->
+  g = (do b <- gput buf 0 (gbe 4 (wrapu 32 (glen v)));
+       do (b', t_1) <- gcopy b 4 v; Ok (b', wraps 64 (4 + t_1))) ->
+  g = rmap zl (w_binary buf v).
+Proof.
+  intros Hv ->. unfold w_binary. rewrite gput_put by lia. rewrite gbe4_glen.
+  change (Z.to_N 0) with 0. put_case_as b1. cbn [bind]. rewrite gcopy_copy_to by lia. change (Z.to_N 4) with 4.
+  destruct (copy_to b1 4 v) as [[b' m]| | |] eqn:E; try reflexivity.
+  apply copy_to_le in E. unfold glen in Hv. unfold zl at 1. cbn [rmap bind fst snd].
+  rewrite wraps64_small by lia. unfold zl. cbn [fst snd]. do 3 f_equal. lia.
+Qed.
+Lemma g_thrift_WriteBinary_eq buf v :
+  (glen v + 4 < 2 ^ 63)%Z -> g_thrift_WriteBinary buf v = rmap zl (w_binary buf v).
+Proof. intros H. apply g_write_binary; [exact H|reflexivity]. Qed.
+Lemma g_thrift_WriteString_eq buf v :
+  (glen v + 4 < 2 ^ 63)%Z -> g_thrift_WriteString buf v = rmap zl (w_binary buf v).
+Proof. intros H. apply g_write_binary; [exact H|reflexivity]. Qed.
+
+Lemma g_thrift_WriteMessageBegin_eq buf name ty seq :
+  (glen name + 12 < 2 ^ 63)%Z ->
+  g_thrift_WriteMessageBegin buf name ty seq = rmap zl (w_message_begin buf name ty seq).
+Proof.
+  intros Hv. unfold g_thrift_WriteMessageBegin, w_message_begin.
+  rewrite gput_put by lia. unfold gbe at 1. rewrite g_first_word. change (Z.to_N 0) with 0.
+  put_case_as b0. cbn [bind]. rewrite gput_put by lia. rewrite gbe4_glen. change (Z.to_N 4) with 4.
+  put_case_as b1. cbn [bind]. rewrite gcopy_copy_to by lia. change (Z.to_N 8) with 8.
+  destruct (copy_to b1 8 name) as [[b2 m]| | |] eqn:E; try reflexivity.
+  apply copy_to_le in E. unfold glen in Hv. unfold zl at 1. cbn [rmap bind fst snd].
+  rewrite wraps64_small by lia. rewrite gput_put by lia. rewrite gbe4.
+  replace (Z.to_N (8 + Z.of_N m)) with (8 + m) by lia.
+  put_case. cbn [bind rmap]. rewrite wraps64_small by lia. unfold zl. cbn [fst snd]. do 3 f_equal. lia.
+Qed.
